@@ -1,5 +1,6 @@
 import FoyerProofs.Lemmas.Conservation
 import FoyerProofs.Lemmas.LawfulBasic
+import FoyerProofs.Lemmas.Linearizable
 /-
   C02 — In-memory cache is linearizable per key under concurrent use.
 
@@ -373,8 +374,8 @@ theorem heldFind_inc (held : List (Rec × Nat)) (r : Rec) (rid : Nat) (x : Rec)
       · rename_i he; simp only [he, if_true] at h; exact h
       · rename_i hne; simp only [hne, if_false] at h; exact ih h
 
-theorem heldFind_dec_ne (held : List (Rec × Nat)) (rid rid' : Nat) (x : Rec) (hne : rid ≠ rid')
-    (h : heldFind held rid = some x) : heldFind (heldDec held rid') rid = some x := by
+theorem heldFind_dec_ne (held : List (Rec × Nat)) (rid : Nat) (d x : Rec) (hne : rid ≠ d.id)
+    (h : heldFind held rid = some x) : heldFind (heldDec held d) rid = some x := by
   induction held with
   | nil => simp [heldFind] at h
   | cons p ps ih =>
@@ -388,11 +389,19 @@ theorem heldFind_dec_ne (held : List (Rec × Nat)) (rid rid' : Nat) (x : Rec) (h
       split
       · exact h
       · simp only [heldFind, hyr, if_false]; exact h
-    · rename_i hy
-      simp only [heldFind]
-      split at h
-      · rename_i he; simp only [he, if_true]; exact h
-      · rename_i hn2; simp only [hn2, if_false]; exact ih h
+    · simp only [heldFind]
+      split
+      · rename_i he; simp only [he, if_true] at h; exact h
+      · rename_i hn2; simp only [hn2, if_false] at h; exact ih h
+
+theorem heldFind_id' {held : List (Rec × Nat)} {rid : Nat} {x : Rec} (h : heldFind held rid = some x) : x.id = rid := by
+  induction held with
+  | nil => simp [heldFind] at h
+  | cons y ys ih =>
+    simp only [heldFind] at h
+    split at h
+    · rename_i hy; cases h; exact hy
+    · exact ih h
 
 /-- **held_stable**: the record a handle denotes is never replaced or altered by any operation
 other than the drop of that very handle — whatever happens to the entry in the cache (eviction,
@@ -430,11 +439,13 @@ theorem held_stable (cfg : Cfg) (c : Cache σ) (op : Op) (rid : Nat) (x : Rec)
     have hne : rid ≠ rid' := fun e => hop (by rw [e])
     simp only [Cache.step]; split
     · exact h
-    · split
+    · rename_i d hd
+      have hne' : rid ≠ d.id := by rw [heldFind_id' hd]; exact hne
+      split
       · split
-        · exact heldFind_dec_ne _ _ _ _ hne h
-        · split <;> exact heldFind_dec_ne _ _ _ _ hne h
-      · exact heldFind_dec_ne _ _ _ _ hne h
+        · exact heldFind_dec_ne _ _ _ _ hne' h
+        · split <;> exact heldFind_dec_ne _ _ _ _ hne' h
+      · exact heldFind_dec_ne _ _ _ _ hne' h
   | clear => simp only [Cache.step]; exact h
   | resize cap => simp only [Cache.step]; exact h
   | evictAll => simp only [Cache.step]; exact h
@@ -448,5 +459,68 @@ example : ((Cache.lookup cfg (Cache.run fifoPolicy cfg (Cache.new fifoPolicy cfg
 example : (regRun 0 ops (Cache.run fifoPolicy cfg (Cache.new fifoPolicy cfg 8) ops).2 none).map (·.ver) = some 3 := by decide
 example : (regRun 1 ops (Cache.run fifoPolicy cfg (Cache.new fifoPolicy cfg 8) ops).2 none) = none := by decide
 end Demo
+
+end Foyer.C02
+
+/-! ### Part B — atomic sections are linearizable -/
+namespace Foyer.C02
+open Foyer.Conc
+
+/-- The in-memory cache as a sequential object. -/
+def memObj {σ : Type} (P : Policy σ) (cfg : Cfg) (cap : Nat) : SeqObj (Cache σ) Op Out :=
+  { init := Cache.new P cfg cap, step := Cache.step P cfg }
+
+/-- **atomic_sections_linearizable**: for *every* interleaving of invocations, atomic steps and
+responses of any number of threads, the sequence of atomic steps (`lins`, ordered by time)
+ * is a legal sequential history of the object (running the sequential model over it yields exactly
+   the recorded results and the current object state),
+ * contains, for every response, the call's linearization point with the same result, after its
+   invocation and before its response,
+ * and respects real time: if call `a` responded before call `b` was invoked then `a` is
+   linearized before `b`. -/
+theorem atomic_sections_linearizable {S O R : Type} (o : SeqObj S O R) (as : List (Action O)) :
+    let c := crun o (CState.init o) as
+    seqRun o o.init (c.lins.map (·.op)) = (c.obj, c.lins.map (·.ret)) ∧
+    c.lins.Pairwise (fun a b => a.time < b.time) ∧
+    (∀ e ∈ c.ress, ∃ l ∈ c.lins, l.id = e.id ∧ l.ret = e.ret ∧ l.time < e.time) ∧
+    (∀ l ∈ c.lins, ∃ i ∈ c.invs, i.id = l.id ∧ i.op = l.op ∧ i.time < l.time) ∧
+    (∀ e ∈ c.ress, ∀ i ∈ c.invs, e.time < i.time →
+      ∀ la ∈ c.lins, ∀ lb ∈ c.lins, la.id = e.id → lb.id = i.id → la.time < lb.time) := by
+  have h := J_run o as _ (J_init o)
+  refine ⟨h.legal, h.sorted, ?_, ?_, ?_⟩
+  · intro e he
+    obtain ⟨h1, l, hl, h2, h3⟩ := h.res_after_lin e he
+    exact ⟨l, hl, h2, h3, h1 l hl h2⟩
+  · intro l hl
+    obtain ⟨h1, i, hi, h2, h3⟩ := h.lin_after_inv l hl
+    exact ⟨i, hi, h2, h3, h1 i hi h2⟩
+  · intro e he i hi hlt la hla lb hlb ha hb
+    have h1 := (h.res_after_lin e he).1 la hla ha
+    have h2 := (h.lin_after_inv lb hlb).1 i hi hb.symm
+    omega
+
+/-- Part A and Part B composed: in any interleaving, after all atomic steps so far, a lookup of `k`
+finds nothing or the register value determined by the *linearization order*. -/
+theorem concurrent_reads_latest {σ : Type} {P : Policy σ} {Ok : σ → Prop} (L : Lawful P Ok) (cfg : Cfg)
+    (hn : 0 < cfg.nshards) (cap : Nat) (k : Nat) (as : List (Action Op)) :
+    let c := crun (memObj P cfg cap) (CState.init (memObj P cfg cap)) as
+    Cache.lookup cfg c.obj k = none ∨
+    Cache.lookup cfg c.obj k = regRun k (c.lins.map (·.op)) (c.lins.map (·.ret)) none := by
+  have h := (atomic_sections_linearizable (memObj P cfg cap) as).1
+  simp only [] at h ⊢
+  have hr := reads_latest L cfg hn cap k ((crun (memObj P cfg cap) (CState.init (memObj P cfg cap)) as).lins.map (·.op))
+  simp only [] at hr
+  -- `seqRun` over the model object is `Cache.run`
+  have hrun : ∀ (ops : List Op) (c0 : Cache σ), seqRun (memObj P cfg cap) c0 ops = Cache.run P cfg c0 ops := by
+    intro ops
+    induction ops with
+    | nil => intro c0; rfl
+    | cons op ops ih => intro c0; simp only [seqRun, Cache.run, memObj]; rw [← ih]; rfl
+  rw [hrun] at h
+  have h' : Cache.run P cfg (Cache.new P cfg cap) ((crun (memObj P cfg cap) (CState.init (memObj P cfg cap)) as).lins.map (·.op))
+      = ((crun (memObj P cfg cap) (CState.init (memObj P cfg cap)) as).obj,
+         (crun (memObj P cfg cap) (CState.init (memObj P cfg cap)) as).lins.map (·.ret)) := h
+  rw [h'] at hr
+  exact hr
 
 end Foyer.C02
